@@ -249,6 +249,19 @@ def run(ctx):
         ctx.broken.append("async-variant table: " + str(e)[:200])
         variants = sorted(HAS_VARIANT)
 
+    # ---------------- T5: the current source of auto_await / auto_aiter / auto_to_list / __anext__, as terms of
+    # Lib/PyAsyExn, equals the model functions (the Await and auto_aiter steps of Asy.eval) for every input
+    import sys as _sys
+    _sys.path.insert(0, os.path.join(lib.ROOT, "gen"))
+    import exn_translate
+    try:
+        ok5, out5 = ctx.coq_obligation("Gen_asyutils", exn_translate.emit_a(lib.SRC), n_obligations=4)
+        if ok5:
+            ctx.trusted.append("Gen_asyutils (source = model equations): " + " ".join(out5.split()))
+    except exn_translate.Untranslatable as e:
+        ctx.obligations += 4
+        ctx.broken.append(f"translator gen/exn_translate.py: async_utils left the translatable vocabulary: {e}")
+
     loop = asyncio.new_event_loop()
     try:
         k_gen(ctx, jinja2, set(variants))
